@@ -40,8 +40,11 @@ LEVEL_TEXT = ("Properties/C09.v, 14 theorems closed under the global context.  R
               "(the repair changes the output only where a multi-balance assertion is followed by another assertion).  The full "
               "statements C09_accepted / C09_idem / C09_same_reports over the TEXT are in the header comment; not proved: parser "
               "context lemmas on printer output, decimal text normal form, invariance under print's regrouping and sorting.")
-LEVEL_NOTE = ("On the pinned tree the property is violated (finding C09-multi-assertion, DESIGN F2); the check reports it with "
-              "replay.  With findings/C09-multi-assertion.patch applied the check passes.")
+LEVEL_NOTE = ("Trusted: kernel, extraction, drivers, harness; the model-to-code tie is sampled.  The pinned printer violated the "
+              "property (finding F2: a multi-balance assertion followed by another assertion of the day); the check reported it with "
+              "a replay, /repo carries the repair 20a0d05 and the model follows the repaired printer (the pinned one survives in "
+              "C09_multi_assertion_refuted).  Journal-level statements named *_partial are proved for the model's directive lists, "
+              "the text level (parse of the printed bytes) per directive (layer 1) and on every generated case by the binary.")
 
 
 def plan(tier, seed):
